@@ -2258,55 +2258,74 @@ func ruleClosedMeansClosed(c *Ctx, r *Reporter) {
 	}
 }
 
-// ruleSkipAfterDamageDropsFragments (round 7): after a damaged record the replay loop resynchronises and goes on reading.
-// Fragments collected before the damage (Reader.fragments) must not survive into what is read next: either the
-// resynchronisation skips far enough that the rest of the entry cannot follow (the tree's 32 KiB skip), or the pending
-// fragments are dropped. Structural part decided here: recoverFromCorruption either reads ahead in a loop of at least
-// MaxRecordSize iterations or resets Reader.fragments.
+// ruleSkipAfterDamageDropsFragments (round 7, re-stated after fix 4f4a928): after a damaged record the replay loop
+// resynchronises and goes on reading. Fragments collected before the damage (Reader.fragments) must not survive into
+// what is read next. The first version of this rule accepted "the resynchronisation skips at least one maximal record";
+// that was unsound — with the right record sizes the 32 KiB skip of the tree ended exactly in front of another entry's
+// MIDDLE fragment, which was then glued onto the stale ones (demo, repaired by 4f4a928). Decided now: on every path from
+// a failed readRecord (other than a clean end of file) to the exit of ReadEntry that reports it, Reader.fragments is
+// reset — or recoverFromCorruption resets it.
 func ruleSkipAfterDamageDropsFragments(c *Ctx, r *Reporter) {
 	r.Rule("resync-drops-pending-fragments", 1)
 	fn := c.Func("pkg/wal", "", "recoverFromCorruption")
+	readEntry := c.Func("pkg/wal", "Reader", "ReadEntry")
+	readRec := c.Func("pkg/wal", "Reader", "readRecord")
 	fragF := c.Field("pkg/wal", "Reader", "fragments")
-	maxRec := c.Const("pkg/wal", "MaxRecordSize")
-	cons := "wal.recoverFromCorruption"
-	if fn == nil || fragF == nil || maxRec == nil {
-		r.Unresolved(cons+" / Reader.fragments / MaxRecordSize", "not found")
+	cons := "wal.Reader.ReadEntry:damaged-record-exit"
+	if fn == nil || fragF == nil || readEntry == nil || readRec == nil {
+		r.Unresolved("wal.recoverFromCorruption / Reader.ReadEntry / readRecord / fragments", "not found")
 		return
 	}
-	maxV, _ := constantInt(maxRec)
-	resets := false
-	skips := int64(0)
-	AllInstrs(fn, false, func(_ *ssa.Function, ins ssa.Instruction) {
-		if st, ok := ins.(*ssa.Store); ok && fieldVarOf(st.Addr) == fragF {
-			resets = true
+	resetsIn := func(f *ssa.Function) bool {
+		found := false
+		AllInstrs(f, false, func(_ *ssa.Function, ins ssa.Instruction) {
+			if st, ok := ins.(*ssa.Store); ok && fieldVarOf(st.Addr) == fragF {
+				found = true
+			}
+		})
+		return found
+	}
+	if resetsIn(fn) {
+		r.OK(cons, c.FnPos(fn), "recoverFromCorruption resets the pending fragments")
+		return
+	}
+	var call *ssa.Call
+	AllInstrs(readEntry, false, func(_ *ssa.Function, ins ssa.Instruction) {
+		if cl, ok := ins.(*ssa.Call); ok && cl.Call.StaticCallee() == readRec {
+			call = cl
 		}
 	})
-	for _, l := range GenericLoops(fn) {
-		reads := false
-		for _, b := range fn.Blocks {
-			if l.Contains(b) {
-				for _, ins := range b.Instrs {
-					if call, ok := ins.(*ssa.Call); ok && call.Call.StaticCallee() != nil && strings.HasPrefix(call.Call.StaticCallee().Name(), "Read") {
-						reads = true
-					}
-				}
-			}
-		}
-		if !reads || len(l.Header.Instrs) == 0 {
-			continue
-		}
-		if iff, ok := l.Header.Instrs[len(l.Header.Instrs)-1].(*ssa.If); ok {
-			if bo, ok := iff.Cond.(*ssa.BinOp); ok {
-				for _, o := range []ssa.Value{bo.X, bo.Y} {
-					if k, isK := constInt(o); isK && k > skips {
-						skips = k
-					}
-				}
-			}
+	if call == nil {
+		r.Undecided(cons, c.FnPos(readEntry), "readRecord is not called directly")
+		return
+	}
+	var errV ssa.Value
+	for _, ref := range *call.Referrers() {
+		if ex, ok := ref.(*ssa.Extract); ok && ex.Index == 1 {
+			errV = ex
 		}
 	}
-	r.Check(resets || skips >= maxV, cons, c.FnPos(fn), fmt.Sprintf("resets the pending fragments: %v; reads ahead %d bytes (a record holds at most %d)", resets, skips, maxV),
-		"after a damaged record the reader carries on with the fragments it had collected (Reader.fragments is not reset and nothing is skipped): the first fragment of a torn entry is glued to later fragments with the damaged one missing, and recovery delivers the key with a value nobody wrote")
+	// exits that hand the record error itself back (a clean EOF and the unexpected-EOF-with-fragments exit build their
+	// own values)
+	var exits []ssa.Instruction
+	for _, ret := range Returns(readEntry) {
+		if errV != nil && ReturnValue(ret, 1) == errV {
+			exits = append(exits, ret)
+		}
+	}
+	if len(exits) == 0 {
+		r.Undecided(cons, c.InsPos(call), "no exit returns the record error")
+		return
+	}
+	bad, path := MustPass(readEntry, exits, func(i ssa.Instruction) bool {
+		st, ok := i.(*ssa.Store)
+		return ok && fieldVarOf(st.Addr) == fragF && Dominates(call, i)
+	})
+	if bad != nil {
+		r.Bad(cons, c.InsPos(bad), "a damaged record is reported while the fragments collected before it stay pending: the replay loop resynchronises and reads on, and a MIDDLE/LAST fragment of another entry is glued onto them — recovery delivers the first entry's key and sequence number with a value nobody wrote", c.PathString(path)...)
+		return
+	}
+	r.OK(cons, c.InsPos(call), fmt.Sprintf("%d exit(s) report a damaged record, all behind a reset of the pending fragments", len(exits)))
 }
 
 // ruleBuilderCopiesValues (round 7): the block builder keeps what it is given until the block is serialized (at the
@@ -2992,5 +3011,474 @@ func ruleSessionStreamNeverCleared(c *Ctx, r *Reporter) {
 	}
 	if n == 0 {
 		r.Undecided("replication.ReplicaSession.Stream", "-", "no store found")
+	}
+}
+
+// ruleSequenceBoundsIndependent (round 8): retention decides by the sequence bounds of a file (delete when MaxSeq <
+// MinSequenceKeep). getSequenceBounds must test EVERY entry against both running bounds: the first entry of a file is
+// both its minimum and its maximum so far. In each iteration of the reading loop every path back to the loop head passes
+// both comparisons (an else-if between them leaves the maximum of a one-entry file at 0 and the file is deleted).
+func ruleSequenceBoundsIndependent(c *Ctx, r *Reporter) {
+	r.Rule("file-bounds-test-every-entry-both-ways", 1)
+	fn := c.Func("pkg/wal", "", "getSequenceBounds")
+	read := c.Func("pkg/wal", "Reader", "ReadEntry")
+	cons := "wal.getSequenceBounds"
+	if fn == nil || read == nil {
+		r.Unresolved(cons+" / Reader.ReadEntry", "not found")
+		return
+	}
+	var call *ssa.Call
+	AllInstrs(fn, false, func(_ *ssa.Function, ins ssa.Instruction) {
+		if cl, ok := ins.(*ssa.Call); ok && cl.Call.StaticCallee() == read {
+			call = cl
+		}
+	})
+	var loop *GenericLoop
+	if call != nil {
+		for _, l := range GenericLoops(fn) {
+			if l.Contains(call.Block()) {
+				loop = l
+			}
+		}
+	}
+	if call == nil || loop == nil {
+		r.Undecided(cons, c.FnPos(fn), "no reading loop found")
+		return
+	}
+	// the running bounds: integer phis of the loop header; the comparisons of the entry's sequence number against them
+	var cmps []ssa.Instruction
+	seen := map[*ssa.Phi]bool{}
+	AllInstrs(fn, false, func(_ *ssa.Function, ins ssa.Instruction) {
+		bo, ok := ins.(*ssa.BinOp)
+		if !ok || !loop.Contains(ins.Block()) {
+			return
+		}
+		switch bo.Op {
+		case token.LSS, token.GTR, token.LEQ, token.GEQ:
+		default:
+			return
+		}
+		for _, pair := range [][2]ssa.Value{{bo.X, bo.Y}, {bo.Y, bo.X}} {
+			ph, isPhi := pair[1].(*ssa.Phi)
+			if !isPhi || ph.Block() != loop.Header {
+				continue
+			}
+			if strings.Contains(Path(pair[0]), "SequenceNumber") && !seen[ph] {
+				seen[ph] = true
+				cmps = append(cmps, ins)
+			}
+		}
+	})
+	if len(cmps) < 2 {
+		r.Bad(cons, c.InsPos(call), fmt.Sprintf("the loop compares the entry's sequence number with %d running bound(s); a minimum and a maximum are needed", len(cmps)))
+		return
+	}
+	first := loop.Header.Instrs[0]
+	for _, cmp := range cmps {
+		cmp := cmp
+		hit, path := Reach(fn, call, func(i ssa.Instruction) bool { return i == first }, func(i ssa.Instruction) bool { return i == cmp })
+		if hit != nil {
+			r.Bad(cons, c.InsPos(cmp), "an entry can go round the loop without being compared with this running bound: the first entry of a file is both its minimum and its maximum, so a file with a single entry reports a maximum of 0 (or an unset minimum) — retention by sequence then deletes a file that still holds a needed entry", c.PathString(path)...)
+			return
+		}
+	}
+	r.OK(cons, c.InsPos(call), fmt.Sprintf("every entry read is compared with both running bounds (%d comparisons)", len(cmps)))
+}
+
+// ruleGuardedMapsUsedUnderLock (round 8): a Go map is a reference. Reading a lock-protected map FIELD under its lock and
+// then ranging over / indexing / updating the value after the lock was released works on the live map without the
+// lock. For every map field of the guard table: every map operation on a value loaded from the field happens with the
+// field's lock held (exclusively for updates) — unless the function swaps the field for a fresh map under the lock
+// (then the old map is private to it).
+func ruleGuardedMapsUsedUnderLock(c *Ctx, r *Reporter) {
+	r.Rule("guarded-maps-used-under-their-lock", 10)
+	li := c.Locks()
+	ctor := c.CtorOnly()
+	for _, fn := range c.KevoFns {
+		if ctor[topParent(fn)] || isCloseMethod(fn) || !inC07Scope(fn) {
+			continue // Close concurrent with other calls is outside the property's scope (as for guarded-by)
+		}
+		AllInstrs(fn, false, func(_ *ssa.Function, ins ssa.Instruction) {
+			fa, ok := ins.(*ssa.FieldAddr)
+			if !ok {
+				return
+			}
+			fv := fieldVarOf(fa)
+			if fv == nil {
+				return
+			}
+			if _, isMap := fv.Type().Underlying().(*types.Map); !isMap {
+				return
+			}
+			key := fieldKey(fv, ownerOfFieldAddr(fa))
+			lock, guarded := guardTable[key]
+			if !guarded || strings.HasPrefix(key, "replication.") {
+				return
+			}
+			if _, lit := fa.X.(*ssa.Alloc); lit {
+				return
+			}
+			// swap idiom: the function stores a new map into the field
+			swaps := false
+			AllInstrs(fn, false, func(_ *ssa.Function, x ssa.Instruction) {
+				if st, isSt := x.(*ssa.Store); isSt && fieldVarOf(st.Addr) == fv {
+					swaps = true
+				}
+			})
+			for _, ref := range *fa.Referrers() {
+				ld, isLd := ref.(*ssa.UnOp)
+				if !isLd || ld.Op != token.MUL || ld.Referrers() == nil {
+					continue
+				}
+				for _, use := range *ld.Referrers() {
+					mode := ""
+					switch u := use.(type) {
+					case *ssa.Range, *ssa.Lookup:
+						mode = "R"
+					case *ssa.MapUpdate:
+						if u.Map == ssa.Value(ld) {
+							mode = "W"
+						}
+					case *ssa.Call:
+						if b, isB := u.Call.Value.(*ssa.Builtin); isB {
+							switch b.Name() {
+							case "delete", "clear":
+								mode = "W"
+							case "len":
+								mode = "R"
+							}
+						}
+					}
+					if mode == "" {
+						continue
+					}
+					cons := fmt.Sprintf("%s@%s", key, FnName(fn))
+					held := li.HeldAt(use)
+					if held.Holds(lock, mode) || (swaps && mode == "R") {
+						r.OK(cons, c.InsPos(use), "map operation under "+lock)
+						continue
+					}
+					r.Bad(cons, c.InsPos(use), "a map read from the lock-protected field "+key+" is used ("+map[string]string{"R": "read/ranged over", "W": "updated"}[mode]+") where "+lock+" is not held (held: "+held.String()+"): the field read was under the lock, but a map is a reference — this operation runs on the live map and races with its writers ('concurrent map iteration and map write' kills the process)")
+				}
+			}
+		})
+	}
+}
+
+// ruleReplayMirrorsLiveApply (round 8): recovery must rebuild exactly what the live write path had put into the
+// memtable. The live path (Manager.Put/Delete/ApplyBatch) applies put entries as puts and delete entries as deletes and
+// nothing else; MemTable.ProcessWALEntry — the replay side — is evaluated for every entry type the log accepts: put →
+// Put, delete → Delete, any other type (merge) → no effect. (Replaying a merge entry as a put invents keys at the next
+// reopen that never were readable while the process ran.)
+func ruleReplayMirrorsLiveApply(c *Ctx, r *Reporter) {
+	r.Rule("replay-applies-what-the-live-path-applied", 6)
+	fn := c.Func("pkg/memtable", "MemTable", "ProcessWALEntry")
+	put := c.Func("pkg/memtable", "MemTable", "Put")
+	del := c.Func("pkg/memtable", "MemTable", "Delete")
+	if fn == nil || put == nil || del == nil {
+		r.Unresolved("memtable.MemTable.{ProcessWALEntry,Put,Delete}", "not found")
+		return
+	}
+	for _, row := range []struct {
+		name string
+		typ  int64
+		want string
+	}{{"put", 1, "Put"}, {"delete", 2, "Delete"}, {"merge", 3, ""}} {
+		if k := c.Const("pkg/wal", map[int64]string{1: "OpTypePut", 2: "OpTypeDelete", 3: "OpTypeMerge"}[row.typ]); k != nil {
+			row.typ, _ = constantInt(k)
+		}
+		sc := &Scenario{Vals: map[ssa.Value]int64{}, Terms: map[string]int64{}, Bools: map[string]bool{}}
+		AllInstrs(fn, false, func(_ *ssa.Function, ins ssa.Instruction) {
+			if ld, ok := ins.(*ssa.UnOp); ok && ld.Op == token.MUL {
+				if fa, ok := ld.X.(*ssa.FieldAddr); ok && fieldName(fa) == "Type" {
+					sc.Vals[ld] = row.typ
+				}
+			}
+		})
+		res := EvalPath(fn.Blocks[0], nil, sc, nil)
+		cons := "memtable.MemTable.ProcessWALEntry[" + row.name + "]"
+		if res.Err != "" || res.Ret == nil {
+			r.Undecided(cons, c.FnPos(fn), "row not decidable: "+res.Err)
+			continue
+		}
+		var got []string
+		for _, e := range res.Effects {
+			if call, ok := e.Ins.(*ssa.Call); ok {
+				switch call.Call.StaticCallee() {
+				case put:
+					got = append(got, "Put")
+				case del:
+					got = append(got, "Delete")
+				}
+			}
+		}
+		g := strings.Join(got, "+")
+		if ClassifyReturn(res.Ret) != ExitSuccess {
+			r.Bad(cons+":accepted", c.InsPos(res.Ret), "replaying a "+row.name+" entry — a type the log writer and the live write path accept — returns an error: a handler error is the one replay error that is fatal, recovery fails, and recoverFromWAL moves every log file aside and restarts the numbering at 1")
+		} else {
+			r.OK(cons+":accepted", c.InsPos(res.Ret), "replay accepts the entry type")
+		}
+		r.Check(g == row.want, cons, c.FnPos(fn), "replay performs "+map[bool]string{true: "nothing", false: g}[g == ""], "replaying a "+row.name+" entry performs ["+g+"], the live write path performed ["+row.want+"] for it: the reopened database differs from what was readable before the close (keys appear that never were put, deleted keys return)")
+	}
+}
+
+// ruleBufferSeekStateless (round 8): Seek(t) lands on the first buffered key >= t wherever the iterator stood before.
+// BufferIterator.Seek searches the whole operation list: it does not read the iterator's own position (a search resumed
+// 'where it stands' is wrong for every backward seek — and the bounded wrapper's SeekToFirst is a Seek(start)).
+func ruleBufferSeekStateless(c *Ctx, r *Reporter) {
+	r.Rule("buffer-seek-ignores-the-old-position", 1)
+	fn := c.Func("pkg/transaction", "BufferIterator", "Seek")
+	posF := c.Field("pkg/transaction", "BufferIterator", "position")
+	cons := "transaction.BufferIterator.Seek"
+	if fn == nil || posF == nil {
+		r.Unresolved(cons+" / BufferIterator.position", "not found")
+		return
+	}
+	var bad ssa.Instruction
+	var visit func(f *ssa.Function, d int)
+	visit = func(f *ssa.Function, d int) {
+		AllInstrs(f, true, func(_ *ssa.Function, ins ssa.Instruction) {
+			if ld, ok := ins.(*ssa.UnOp); ok && ld.Op == token.MUL && fieldVarOf(ld.X) == posF {
+				bad = ins
+			}
+			if call, ok := ins.(*ssa.Call); ok && d < 1 {
+				if h := call.Call.StaticCallee(); h != nil && h != fn && recvTypeName(h) == recvTypeName(fn) && len(h.Blocks) > 0 {
+					visit(h, d+1)
+				}
+			}
+		})
+	}
+	visit(fn, 0)
+	if bad != nil {
+		r.Bad(cons, c.InsPos(bad), "Seek reads the iterator's current position: where it lands depends on where it stood — after a backward re-positioning (Seek(y) after Seek(x), y < x; a second SeekToFirst of a range scan) the transaction's own buffered writes between the two positions are skipped and the scan shows the committed values instead")
+		return
+	}
+	r.OK(cons, c.FnPos(fn), "the search does not read the old position")
+}
+
+// ruleNoCapOnBlockSize (round 8): the table writer cuts a data block AFTER the entry that crosses the block size, so a
+// block is as large as its largest value; sizes are 32-bit fields. The block fetcher must accept every size the writer can
+// produce: no failing exit of FetchBlock is decided by comparing the requested size with a constant (a 'reasonable limit'
+// makes large values unreadable; Manager.Get then falls through to an older table and answers with a stale version).
+func ruleNoCapOnBlockSize(c *Ctx, r *Reporter) {
+	r.Rule("fetcher-accepts-every-block-size", 1)
+	fn := c.Func("pkg/sstable", "BlockFetcher", "FetchBlock")
+	cons := "sstable.BlockFetcher.FetchBlock"
+	if fn == nil {
+		r.Unresolved(cons, "not found")
+		return
+	}
+	var sizeP *ssa.Parameter
+	for _, p := range fn.Params {
+		if p.Name() == "size" || p.Type().String() == "uint32" {
+			sizeP = p
+		}
+	}
+	if sizeP == nil {
+		r.Undecided(cons, c.FnPos(fn), "no size parameter")
+		return
+	}
+	capTest := func(cond ssa.Value) (bool, bool) {
+		bo, ok := cond.(*ssa.BinOp)
+		if !ok {
+			return false, false
+		}
+		x, y, op := bo.X, bo.Y, bo.Op
+		if _, isK := constInt(x); isK {
+			x, y = y, x
+			op = flipOp(op)
+		}
+		k, isK := constInt(y)
+		if !isK || k <= 1 || k >= 1<<32-1 || stripNumConv(x) != ssa.Value(sizeP) {
+			return false, false
+		}
+		switch op {
+		case token.GTR, token.GEQ:
+			return true, false
+		case token.LSS, token.LEQ:
+			return false, true
+		}
+		return false, false
+	}
+	var bad ssa.Instruction
+	n := 0
+	for _, ret := range Returns(fn) {
+		if ClassifyReturn(ret) == ExitSuccess {
+			continue
+		}
+		n++
+		if GuardedBy(ret.Block(), capTest) {
+			bad = ret
+		}
+	}
+	if bad != nil {
+		r.Bad(cons, c.InsPos(bad), "a block is refused because its size exceeds a constant: the writer produces blocks as large as the largest value (the block is cut after the entry that crosses the limit), so a value above the cap is written and can never be read back — the lookup fails inside the iterator, Manager.Get moves on to the older table and answers with the previous version of the key, without an error")
+		return
+	}
+	r.OK(cons, c.FnPos(fn), fmt.Sprintf("none of the %d failing exits is decided by a constant cap on the size", n))
+}
+
+// ruleTableIteratorRewindsIndex (round 8): sstable.Iterator keeps an index cursor between calls. Each positioning method
+// must position that cursor itself before it reads it: in seekToFirst / SeekToLast / Seek no Valid/Key/Value/Next call on
+// indexIterator is reachable from the entry without a Seek*/SeekTo* call on indexIterator in between (relying on where
+// the cursor was left makes a second SeekToFirst start in the middle of the table, or find it exhausted).
+func ruleTableIteratorRewindsIndex(c *Ctx, r *Reporter) {
+	r.Rule("table-iterator-positions-its-index-cursor", 3)
+	idxF := c.Field("pkg/sstable", "Iterator", "indexIterator")
+	if idxF == nil {
+		r.Unresolved("sstable.Iterator.indexIterator", "not found")
+		return
+	}
+	for _, mn := range []string{"seekToFirst", "SeekToLast", "Seek"} {
+		fn := c.Func("pkg/sstable", "Iterator", mn)
+		cons := "sstable.Iterator." + mn
+		if fn == nil {
+			r.Unresolved(cons, "not found")
+			continue
+		}
+		onIndex := func(i ssa.Instruction) (string, bool) {
+			call, ok := i.(*ssa.Call)
+			if !ok || call.Call.StaticCallee() == nil || len(call.Call.Args) == 0 || !isLoadOfField(call.Call.Args[0], idxF) {
+				return "", false
+			}
+			return call.Call.StaticCallee().Name(), true
+		}
+		// same-receiver helpers that position the index (findLastUniqueBlockOffset starts with SeekToFirst) count as positioning
+		positions := func(i ssa.Instruction) bool {
+			if n, ok := onIndex(i); ok && strings.HasPrefix(n, "Seek") {
+				return true
+			}
+			if call, ok := i.(*ssa.Call); ok {
+				if h := call.Call.StaticCallee(); h != nil && h != fn && recvTypeName(h) == recvTypeName(fn) && len(h.Blocks) > 0 {
+					first := ""
+					for _, b := range h.Blocks {
+						for _, x := range b.Instrs {
+							if n, ok := onIndex(x); ok && first == "" {
+								first = n
+							}
+						}
+					}
+					return strings.HasPrefix(first, "Seek")
+				}
+			}
+			return false
+		}
+		hit, path := ReachBlock(fn.Blocks[0], func(i ssa.Instruction) bool {
+			n, ok := onIndex(i)
+			return ok && !strings.HasPrefix(n, "Seek")
+		}, positions, nil)
+		if hit != nil {
+			r.Bad(cons, c.InsPos(hit), "the index cursor is read before this method has positioned it: the method starts from wherever an earlier call left the cursor — a second SeekToFirst after a scan finds it exhausted (the table contributes no keys to the rescan) or in a later block (the keys of the earlier blocks are missing)", c.PathString(path)...)
+		} else {
+			r.OK(cons, c.FnPos(fn), "the index cursor is positioned before it is read")
+		}
+	}
+}
+
+// ruleFilteredSeekToLastScansAll (round 8): matches of a filter need not be adjacent in key order (suffix filters, custom
+// filters). The fallback of FilteredIterator.SeekToLast remembers the last match of a scan from the beginning; the scan
+// must run to the end of the inner iterator: the loop that calls Next has no exit but exhaustion.
+func ruleFilteredSeekToLastScansAll(c *Ctx, r *Reporter) {
+	r.Rule("filtered-seek-to-last-scans-to-the-end", 1)
+	fn := c.Func("pkg/common/iterator/filtered", "FilteredIterator", "SeekToLast")
+	cons := "filtered.FilteredIterator.SeekToLast"
+	if fn == nil {
+		r.Unresolved(cons, "not found")
+		return
+	}
+	n := 0
+	bad := false
+	var pos ssa.Instruction
+	for _, l := range GenericLoops(fn) {
+		hasNext := false
+		for _, b := range fn.Blocks {
+			if !l.Contains(b) {
+				continue
+			}
+			for _, ins := range b.Instrs {
+				if call, ok := ins.(*ssa.Call); ok && call.Call.IsInvoke() && call.Call.Method.Name() == "Next" {
+					hasNext = true
+					pos = ins
+				}
+			}
+		}
+		if !hasNext {
+			continue
+		}
+		n++
+		for _, b := range fn.Blocks {
+			if !l.Contains(b) || b == l.Header {
+				continue
+			}
+			for _, s := range b.Succs {
+				if !l.Contains(s) {
+					bad = true
+				}
+			}
+			if len(b.Succs) == 0 {
+				bad = true
+			}
+		}
+	}
+	if n == 0 {
+		r.OK(cons, c.FnPos(fn), "no forward scan (nothing to cut short)")
+		return
+	}
+	r.Check(!bad, cons, c.InsPos(pos), "the fallback scan runs to the end of the inner iterator", "the scan that looks for the last matching key can stop before the end of the inner iterator: with a filter whose matches are not adjacent (suffix, prefix+suffix, custom) SeekToLast lands on the last key of the FIRST run of matches, not on the greatest matching key — and contradicts a forward scan of the same iterator")
+}
+
+// rulePoolWritesReachTable (round 8): the storage layer has already logged the operation when it calls the pool; the pool
+// has no business deciding that a write is redundant (a memo of 'the last put' is stale as soon as a delete — which does
+// not go through Put — lies in between). Every exit of MemTablePool.Put passes MemTable.Put, every exit of
+// MemTablePool.Delete passes MemTable.Delete.
+func rulePoolWritesReachTable(c *Ctx, r *Reporter) {
+	r.Rule("pool-writes-always-reach-the-table", 2)
+	for _, mn := range []string{"Put", "Delete"} {
+		fn := c.Func("pkg/memtable", "MemTablePool", mn)
+		tgt := c.Func("pkg/memtable", "MemTable", mn)
+		cons := "memtable.MemTablePool." + mn
+		if fn == nil || tgt == nil {
+			r.Unresolved(cons, "not found")
+			continue
+		}
+		var rets []ssa.Instruction
+		for _, ret := range Returns(fn) {
+			rets = append(rets, ret)
+		}
+		bad, path := MustPass(fn, rets, func(i ssa.Instruction) bool {
+			call, ok := i.(*ssa.Call)
+			return ok && call.Call.StaticCallee() == tgt
+		})
+		if bad != nil {
+			r.Bad(cons, c.InsPos(bad), "an exit of the pool's "+mn+" does not pass MemTable."+mn+": the operation is in the log and acknowledged, but not in the table — e.g. a put skipped as 'identical to the last put' although a delete of the key came in between reads as not found until the next restart", c.PathString(path)...)
+		} else {
+			r.OK(cons, c.FnPos(fn), "every exit passes MemTable."+mn)
+		}
+	}
+}
+
+// ruleMergeNextStepsOnly (round 8): Next() of the merging iterator moves past the current key by stepping each child with
+// the child's own Next (which sees every entry). It never re-positions a child with Seek*: a computed 'successor' key
+// (last byte + 1) jumps over every key that extends the current one (k1 → k10, order:12 → order:12:item:1).
+func ruleMergeNextStepsOnly(c *Ctx, r *Reporter) {
+	r.Rule("merge-next-steps-children-with-next", 2)
+	for _, mn := range []string{"Next", "findNextUniqueKey"} {
+		fn := c.Func("pkg/common/iterator/composite", "HierarchicalIterator", mn)
+		cons := "composite.HierarchicalIterator." + mn
+		if fn == nil {
+			r.Unresolved(cons, "not found")
+			continue
+		}
+		var bad ssa.Instruction
+		AllInstrs(fn, true, func(_ *ssa.Function, ins ssa.Instruction) {
+			if call, ok := ins.(*ssa.Call); ok && call.Call.IsInvoke() && strings.HasPrefix(call.Call.Method.Name(), "Seek") {
+				bad = ins
+			}
+		})
+		if bad != nil {
+			r.Bad(cons, c.InsPos(bad), "a child iterator is re-positioned with Seek while the merged iterator advances: whatever key the seek target was computed from, entries between the current key and that target are skipped — keys that extend the current key (k1/k10, parent/child records of one transaction) vanish from every scan while Get still finds them")
+		} else {
+			r.OK(cons, c.FnPos(fn), "children are advanced with Next only")
+		}
 	}
 }
